@@ -395,6 +395,12 @@ func runFED10(r *core.Run) {
 			// same known finding as the non-null flavour above: the fields are nullable, so the missing
 			// fetch shows as a silent null instead of a completed-with-error fragment
 			r.Fail(prop, "stream", "deferred-fetches-missing", "deferred fields are delivered as null although no subgraph failed and the same operation without @defer returns values (the deferred run sent %d subgraph requests, the twin %d): fetches of the deferred group are missing\n%sreconstructed: %s\nwithout defer: %s\nframes:\n  %s\n%s", len(e.reqs), twinRequests, ctxMsg, got, twin.data, strings.Join(x.w.frames, "\n  "), e.describe())
+		} else if got != twin.data && len(x.w.frames) == 2 && strings.Contains(x.w.frames[1], `"incremental":[]`) && onlyKeysMissing(rcv, twv) && e.deferShape(op.Query) == "" {
+			// known finding: the only deferred fragment is announced and then completed with an empty
+			// incremental list; nothing it selects is ever delivered (no fault, no error). Seen when the
+			// operation selects fields of the fragment's entity type elsewhere as well (another root
+			// field or an aliased copy of the parent field); the cause is not isolated.
+			r.Fail(prop, "stream", "fragment-completed-with-empty-incremental-list", "a deferred fragment was announced and completed but its incremental list is empty, although the same operation without @defer returns values for its fields\n%sdelivered:     %s\nwithout defer: %s\nframes:\n  %s\n%s", ctxMsg, got, twin.data, strings.Join(x.w.frames, "\n  "), e.describe())
 		} else if got != twin.data && altReconstruct(x.w.frames, twin.data, strings.Count(op.Query, "@defer") >= 2) {
 			r.Fail(prop, "reconstruction", "pending-path-includes-first-item-subpath", "the payloads reconstruct the non-deferred data only when items with a subPath are read relative to a prefix of the announced pending path\n%sframes:\n  %s\n%s", ctxMsg, strings.Join(x.w.frames, "\n  "), e.describe())
 		} else if got != twin.data {
